@@ -124,6 +124,8 @@ def check(repo: Repo) -> Result:
 
     r9 = res.rule("C14-R9", "a prefixed unit derived by the lookup is stored as NOT prefixable: otherwise a second prefix is accepted once the first has been used (kkm, Mkm), a reading no documented name has", floor=1)
     share(res, r9, "C02", lambda t_: _c02.prefix_composition(repo, t_), ["C02-R2"], want=lambda k: k == "not-prefixable")
+    r10 = res.rule("C14-R10", "one name, one unit, whatever was looked up before: re-adding a symbol drops the prefixed rows derived from its old definition before the new row is stored, and define_unit refuses every spelling the registry already resolves (prefixed forms included, stored or not) (shared with C12-R2)", floor=3)
+    share(res, r10, "C12", lambda t_: c12.invalidation(repo, t_), ["C12-R2"], want=lambda k: k in ("add:derived-rows", "add:derived-rows:after-evaluation", "define_unit:exists-guard", "define_unit", "add:every-normal-exit-writes"), min_keys=3)
     r8 = res.rule("C14-R8", "after a registry edit every spelling of the edited unit (alias, word-prefixed form) is re-read from the table: the whole unit-string cache is cleared, not only the keys that contain the symbol's text", floor=3)
     share(res, r8, "C12", lambda t_: c12.invalidation(repo, t_), ["C12-R2"], want=lambda k: k.endswith(":unit-cache"), min_keys=3)
 
